@@ -46,9 +46,20 @@ class SysGen:
         return 'Y %d %d %d %d %d %d %d %d %d %d %d' % (self.qtype, self.upcodec, self.downenc, self.lazy, self.fragsize,
                                                       self.maxlen, self.checkip, self.st, self.chunkid, self.seed, self.now)
 
-    def pkt(self, dst):
+    def limit(self, up):
+        """largest packet (bytes at the tun device) that fits in 15 fragments with the framing codec (+1 byte)"""
+        if up:
+            space = self.maxlen - 13 - 8        # domain t.example.com
+            space -= space // 57
+            cap = (space * [5, 6, 6, 7][self.upcodec]) // 8
+            return 15 * cap - 1
+        return 15 * min(self.fragsize, 4094) - 1
+
+    def pkt(self, dst, limit=None):
         r = self.rng
         n = r.choice([24, 40, 100, 300, 600, 1200])
+        if limit is not None:
+            n = max(24, min(n, limit))
         p = bytearray(r.randrange(256) for _ in range(n))
         p[20:24] = dst
         return bytes(p)
@@ -147,11 +158,11 @@ class CleanGen(SysGen):
         offered = []
         for i in range(npackets):
             if r.randrange(2):
-                p = self.pkt(bytes([8, 8, 8, 8]))
+                p = self.pkt(bytes([8, 8, 8, 8]), self.limit(True))
                 self.events.append('CU ' + p.hex())
                 offered.append(('up', len(self.events) - 1, p))
             else:
-                p = self.pkt(CLIENT_TUN_IP)
+                p = self.pkt(CLIENT_TUN_IP, self.limit(False))
                 self.events.append('SU ' + p.hex())
                 offered.append(('down', len(self.events) - 1, p))
             # deliver everything; client timers fire when idle
@@ -172,6 +183,7 @@ class CleanGen(SysGen):
         return offered
 
     def build_clean(self, fault_events, npackets):
+        self.had_prefix = bool(fault_events)
         if fault_events:
             SysGen.build(self, fault_events)
             # whatever is still in flight is lost when the path comes back
